@@ -196,6 +196,20 @@ void SampledDimension::samplingInterval(double interval) {
 }
 
 
+// Converts a non-negative, integral double to an index. A value that does not fit into ndsize_t
+// (or is not a number) must not be cast (undefined behaviour): it yields no index, or the largest
+// possible index if saturate is set.
+static boost::optional<ndsize_t> toIndex(const double value, const bool saturate) {
+    boost::optional<ndsize_t> index;
+    if (value >= 0.0 && value < 18446744073709551616.0) {
+        index = static_cast<ndsize_t>(value);
+    } else if (saturate && value >= 18446744073709551616.0) {
+        index = std::numeric_limits<ndsize_t>::max();
+    }
+    return index;
+}
+
+
 boost::optional<ndsize_t> getSampledIndex(const double position, const double offset, const double sampling_interval, const PositionMatch match) {
     boost::optional<ndsize_t> index;
     if (position < offset && (match != PositionMatch::Greater && match != PositionMatch::GreaterOrEqual)) {
@@ -214,7 +228,7 @@ boost::optional<ndsize_t> getSampledIndex(const double position, const double of
             tmp += 1.0;
         }
         bool equals = tmp * sampling_interval + offset == position;
-        index = (match == PositionMatch::Greater && equals) ? static_cast<ndsize_t>(tmp + 1) : static_cast<ndsize_t>(tmp);
+        index = toIndex((match == PositionMatch::Greater && equals) ? tmp + 1 : tmp, false);
     } else if (match == PositionMatch::Less || match == PositionMatch::LessOrEqual) {
         tmp = floor((position - offset) / sampling_interval);
         // the rounded quotient can be off by one: correct it against the sample positions (cf. positionAt)
@@ -226,15 +240,15 @@ boost::optional<ndsize_t> getSampledIndex(const double position, const double of
         bool equals = tmp * sampling_interval + offset == position;
         if (match == PositionMatch::Less && equals) { 
             if (tmp >= 1) {
-                index = static_cast<ndsize_t>(tmp - 1);
+                index = toIndex(tmp - 1, false);
             } 
         } else {
-            index = static_cast<ndsize_t>(tmp);
+            index = toIndex(tmp, true);
         }
     } else {
         tmp = round((position - offset) / sampling_interval);
         if (tmp * sampling_interval + offset == position) {
-            index = static_cast<ndsize_t>(tmp);
+            index = toIndex(tmp, false);
         }
     }
     return index;
@@ -419,21 +433,21 @@ boost::optional<ndsize_t> getSetIndex(const double position, std::vector<std::st
         
 
         bool equals = tmp == position;
-        index = (match == PositionMatch::Greater && equals) ? static_cast<ndsize_t>(tmp + 1) : static_cast<ndsize_t>(tmp);
+        index = toIndex((match == PositionMatch::Greater && equals) ? tmp + 1 : tmp, false);
     } else if (match == PositionMatch::Less || match == PositionMatch::LessOrEqual) {
         tmp = floor(position);
         bool equals = tmp == position;
         if (match == PositionMatch::Less && equals) { 
             if (tmp >= 1) {
-                index = static_cast<ndsize_t>(tmp - 1);
+                index = toIndex(tmp - 1, false);
             } 
         } else {
-            index = static_cast<ndsize_t>(tmp);
+            index = toIndex(tmp, true);
         }
     } else {
         tmp = round(position);
         if (tmp == position) {
-            index = static_cast<ndsize_t>(tmp);
+            index = toIndex(tmp, false);
         }
     }
 
@@ -815,21 +829,21 @@ boost::optional<ndsize_t> getDataFrameIndex(const double position, const ndsize_
         }
 
         bool equals = tmp == position;
-        index = (match == PositionMatch::Greater && equals) ? static_cast<ndsize_t>(tmp + 1) : static_cast<ndsize_t>(tmp);
+        index = toIndex((match == PositionMatch::Greater && equals) ? tmp + 1 : tmp, false);
     } else if (match == PositionMatch::Less || match == PositionMatch::LessOrEqual) {
         tmp = floor(position);
         bool equals = tmp == position;
         if (match == PositionMatch::Less && equals) { 
             if (tmp >= 1) {
-                index = static_cast<ndsize_t>(tmp - 1);
+                index = toIndex(tmp - 1, false);
             } 
         } else {
-            index = static_cast<ndsize_t>(tmp);
+            index = toIndex(tmp, true);
         }
     } else {
         tmp = round(position);
         if (tmp == position) {
-            index = static_cast<ndsize_t>(tmp);
+            index = toIndex(tmp, false);
         }
     }
 
